@@ -165,7 +165,14 @@ func vfC10Gen(rt *rapid.T) vfC10Case {
 			if c.LogGate && c.Mode == 0 && rapid.IntRange(0, 2).Draw(rt, "afterReply") == 0 {
 				s.Gate, s.ByServer = 3, false
 			}
-			if c.BatchDelayMs > 0 && rapid.IntRange(0, 2).Draw(rt, "batchPending") == 0 {
+			if c.Mode == 0 && rapid.IntRange(0, 3).Draw(rt, "resubPhrase") == 0 {
+				// correlated phrase: by-server unsubscribe parked in its teardown, the client re-subscribes, release, publish
+				s.ByServer = true
+				if s.Gate == 0 || s.Gate == 3 {
+					s.Gate = 1
+				}
+				post = []vfC10Step{{Kind: vfC10Sub}, {Kind: vfC10RelOps}, {Kind: vfC10Pub, Hist: c.HistMode == 1}}
+			} else if c.BatchDelayMs > 0 && rapid.IntRange(0, 2).Draw(rt, "batchPending") == 0 {
 				// correlated phrase: a push pending in the channel's batch, a by-server unsubscribe parked in its teardown,
 				// virtual time passing beyond the batch delay, release
 				pre := vfC10Step{Kind: vfC10Pub, Hist: c.HistMode == 1 || (c.HistMode == 2 && rapid.Bool().Draw(rt, "pendHist"))}
@@ -472,6 +479,8 @@ func vfC10Run(t *testing.T, cs vfC10Case, out *vfC10Out, isKnown func(string) bo
 			pcw.mu.Unlock()
 		}
 		var srvSubDone, srvUnsubDone []int64 // completion marks of server-side ops that enqueue a push, in order
+		var srvUnsubLag []bool               // the writer was seen parked while that unsubscribe was in flight
+		var curUnsubLag atomic.Bool
 		var srvUnsubIssue []int64            // issue marks of the same server-side unsubscribes (0 completion = unknown)
 		unsubByServer := false
 		liveTag := func() int { // tag (ChannelInfo) of the subscription currently in c.channels, -1 if none
@@ -583,6 +592,9 @@ func vfC10Run(t *testing.T, cs vfC10Case, out *vfC10Out, isKnown func(string) bo
 
 		for si, s := range cs.Steps {
 			_ = si
+			if (unsubBusy.Load() || w.Gates.Waiting("prem") > 0 || w.Gates.Waiting("pleave") > 0) && w.Gates.Waiting("push") > 0 {
+				curUnsubLag.Store(true)
+			}
 			switch s.Kind {
 			case vfC10Pub:
 				if s.Hist && !unsubBusy.Load() && unsubGateParked() && !conn.Client.IsSubscribed(ch) {
@@ -778,6 +790,7 @@ func vfC10Run(t *testing.T, cs vfC10Case, out *vfC10Out, isKnown func(string) bo
 				unsubByServer = s.ByServer || cs.Uni
 				if s.ByServer || cs.Uni {
 					issued := mark()
+					curUnsubLag.Store(w.Gates.Waiting("push") > 0)
 					ownLeave := fmt.Sprintf("leave:%d", liveTag())
 					conn.Client.mu.RLock()
 					_, had := conn.Client.channels[ch] // subscribed or reserved by a subscribe in flight: a push will be sent
@@ -788,6 +801,7 @@ func vfC10Run(t *testing.T, cs vfC10Case, out *vfC10Out, isKnown func(string) bo
 						if had && !closedNow() {
 							srvUnsubDone = append(srvUnsubDone, m)
 							srvUnsubIssue = append(srvUnsubIssue, issued)
+							srvUnsubLag = append(srvUnsubLag, curUnsubLag.Load() || w.Gates.Waiting("push") > 0)
 						}
 						// the old subscription's leave reaches the subject itself only when a re-subscription was accepted meanwhile
 						setProd(ownLeave, &vfC10Prod{kind: "leave", phase: vfC10PhEst, endSeq: m})
@@ -849,6 +863,8 @@ func vfC10Run(t *testing.T, cs vfC10Case, out *vfC10Out, isKnown func(string) bo
 					if i == 1 {
 						srvUnsubIssue = append(srvUnsubIssue, mark())
 						srvUnsubDone = append(srvUnsubDone, 0)
+						srvUnsubLag = append(srvUnsubLag, true)
+						curUnsubLag.Store(w.Gates.Waiting("push") > 0)
 					}
 					if _, err := w.node.Publish(ch, []byte(fmt.Sprintf(`{"n":%d}`, pubN)), WithHistory(20, 300*time.Second)); err != nil {
 						return "infra: publish error: " + err.Error()
@@ -938,8 +954,12 @@ func vfC10Run(t *testing.T, cs vfC10Case, out *vfC10Out, isKnown func(string) bo
 					case p.Unsubscribe != nil:
 						it.kind = vfC10ItEnd
 						if subject && unsubPushes < len(srvUnsubDone) {
-							// the push is enqueued when the channel is released, i.e. at the start of the unsubscribe
-							it.enq = srvUnsubIssue[unsubPushes]
+							// The push is enqueued when the channel is released, i.e. at the start of the unsubscribe. That is only
+							// assumed when the writer was seen lagging meanwhile; otherwise a queued push is written at once and
+							// its write time IS its hand-over time (a push enqueued late must not be explained away).
+							if srvUnsubLag[unsubPushes] {
+								it.enq = srvUnsubIssue[unsubPushes]
+							}
 							it.issue = srvUnsubIssue[unsubPushes]
 						}
 						unsubPushes++
